@@ -23,7 +23,7 @@ func genC07(t *rapid.T) C07Case {
 	o := ragen.GenOpt{
 		Rx:       ragen.RxOpt{Stress: 5, MaxDepth: 1},
 		MaxDepth: 2, MaxItems: 6, Flags: true, PrefixSuffix: true, Defs: true, DefsInPS: true,
-		Includes: true, Cmdline: false, StoreLoad: true, Noise: true,
+		Includes: true, Cmdline: false, StoreLoad: true, Noise: true, TrailWS: true,
 	}
 	var g *ragen.Gen
 	for try := 0; ; try++ {
